@@ -275,8 +275,8 @@ def faultTrace (c : Cfg) (k : Nat) : List Instr :=
 /-! ### `atomic_write(path, tmpdir=D)`: the temp file lives in a directory supplied by the caller -/
 
 inductive TmpCleanup where
-  | rmtreeDir    -- as coded: `shutil.rmtree(self._tmppath.parent)` — the caller's directory
-  | unlinkFile   -- repaired: only the temp file is removed (`unlink(missing_ok=True)`)
+  | rmtreeDir    -- historical (before 9c9e074c9): `shutil.rmtree(self._tmppath.parent)` — the caller's directory
+  | unlinkFile   -- THE model of the code as it is now: only the temp file is removed
   deriving DecidableEq, Repr
 
 /-- the calls of a successful write on the `tmpdir=` route: no mkdtemp; `c.tmpdir` is the caller's directory -/
